@@ -208,6 +208,14 @@ func (c *ProgCase) Judge(rs []Res, env *Env) Outcome {
 			Detail: fmt.Sprintf("%s; output %s; program:\n%s", w.FailWhy, hexOut, src)}}
 		return o
 	}
+	if prop == "C17" && w.FailAt >= 0 && w.FailAt < len(p.Stmts) && w.FailKind == "encoding" {
+		// every statement of a C17 program comes from the pool gosk encodes correctly in its own mode: bytes that do not decode
+		// to the statement in the mode in force where it stands were encoded for another mode
+		o.Status = Violated
+		o.Viols = []Violation{{Sig: fmt.Sprintf("C17|wrong-mode-encoding|m%d|%s", w.ModeAt[w.FailAt], stmtKindOf(p.Stmts[w.FailAt])),
+			Detail: fmt.Sprintf("%s (mode in force: %d); output %s; program:\n%s", w.FailWhy, w.ModeAt[w.FailAt], hexOut, src)}}
+		return o
+	}
 	if (prop == "C05" || prop == "C06") && w.FailAt >= 0 {
 		tag, kindOf := "end", "end"
 		if w.FailAt < len(p.Stmts) {
